@@ -245,6 +245,9 @@ Lemma note_entitled s sid u t w seq :
   Forall (entitled_note (fst (note_op s sid u t w seq))) (snd (note_op s sid u t w seq)).
 Proof.
   intros Ht. unfold note_op.
+  repeat match goal with
+         | |- Forall _ (snd (if ?c then _ else _)) => destruct c eqn:?; [simpl; repeat constructor|]
+         end.
   destruct (get_top s t) as [x|] eqn:G; [|repeat constructor].
   repeat match goal with
          | |- Forall _ (snd (if ?c then _ else _)) => destruct c eqn:?; [simpl; repeat constructor|]
@@ -275,7 +278,7 @@ Lemma step_entitled_gen rep s o :
   | Deliver i => match take_nth i [] (s_net s) with
                  | Some (g, rest) => Forall (entitled (set_net (fun _ => rest) s)) (snd (step_gen rep s o))
                  | None => no_frames (snd (step_gen rep s o)) end
-  | Note _ _ _ _ => Forall (entitled_note (fst (step_gen rep s o))) (snd (step_gen rep s o))
+  | Note _ _ _ _ _ => Forall (entitled_note (fst (step_gen rep s o))) (snd (step_gen rep s o))
   | _ => no_frames (snd (step_gen rep s o))
   end.
 Proof.
@@ -290,7 +293,7 @@ Proof.
   - destruct (sess_user s sid); [|nf]. destruct r; [nf| |]; (destruct (n =? v); [apply nf_want|apply nf_given]).
   - destruct (sess_user s sid); [|nf]. destruct r; [nf|apply nf_evict|apply nf_evict].
   - destruct (sess_user s sid); [|nf]. destruct r; [nf|apply nf_pub|apply nf_pub].
-  - destruct (sess_user s sid); [|simpl; repeat constructor].
+  - match goal with |- Forall _ (snd (if ?c then _ else _)) => destruct c; [simpl; repeat constructor|] end.
     destruct r; [simpl; repeat constructor| |]; apply note_entitled; apply resolve_not_me; discriminate.
   - destruct (sess_user s sid); [|nf]. destruct r; [nf|apply nf_delmsg|apply nf_delmsg].
   - nf.
@@ -511,7 +514,7 @@ Definition entitled_at (s : state) (o : op) (f : out) : Prop :=
                  | Some (g, rest) => entitled (set_net (fun _ => rest) s) f
                  | None => match f with Frame _ _ _ _ _ => False | _ => True end
                  end
-  | Note _ _ _ _ => entitled_note (fst (step s o)) f
+  | Note _ _ _ _ _ => entitled_note (fst (step s o)) f
   | _ => match f with Frame _ _ _ _ _ => False | _ => True end
   end.
 
@@ -703,7 +706,10 @@ Qed.
 
 Lemma tops_note s sid u t w seq : tops_ok s -> tops_ok (fst (note_op s sid u t w seq)).
 Proof.
-  intros H. unfold note_op. destruct (get_top s t) as [x|] eqn:G; [|exact H].
+  intros H. unfold note_op.
+  destruct (negb (sess_on s sid t) && negb (what_eqb w WIRecv)); [exact H|].
+  match goal with |- tops_ok (fst (if ?c then _ else _)) => destruct c; [exact H|] end.
+  destruct (get_top s t) as [x|] eqn:G; [|exact H].
   pose proof (tops_get _ _ _ H G) as Hx.
   brk; auto; apply tops_send, tops_put; auto.
   all: destruct w; auto; apply mem_set_pud; auto; intros C; simpl;
@@ -803,7 +809,8 @@ Proof.
       (destruct (n =? v); [now apply tops_want | now apply tops_given]).
   - destruct (sess_user s sid); [|exact H]. destruct r; [exact H| |]; now apply tops_evict.
   - destruct (sess_user s sid); [|exact H]. destruct r; [exact H| |]; now apply tops_pub.
-  - destruct (sess_user s sid); [|exact H]. destruct r; [exact H| |]; now apply tops_note.
+  - match goal with |- tops_ok (fst (if ?c then _ else _)) => destruct c; [exact H|] end.
+    destruct r; [exact H| |]; now apply tops_note.
   - destruct (sess_user s sid); [|exact H]. destruct r; [exact H| |]; now apply tops_delmsg.
   - destruct (idle s t); [|exact H]. simpl. apply tops_send. now apply tops_drop.
   - destruct (idle s t); [|exact H]. simpl. now apply tops_drop.
